@@ -131,6 +131,8 @@ func runC01(c *core.Check) {
 		case boundsExceptions[s.key] != "":
 			used[s.key] = true
 			c.Except("C01.bounds", s.key, s.node.Pos(), boundsExceptions[s.key])
+		case builderLenSlice(s.fi, s.node):
+			c.Pass("C01.bounds", s.key, s.node.Pos(), "the bound is only ever 0 or the builder's Len() at that moment, the sliced string is that builder's String(), and the builder only grows until it is reset together with the bound (C01.builder-offset)")
 		default:
 			c.Fail("C01.bounds", s.key, s.node.Pos(), exprStr(s.node)+" can be out of range ("+s.how+"): a crafted input makes the parser panic instead of returning errors")
 		}
@@ -308,6 +310,86 @@ func isCommaOkAssert(fi *core.FuncInfo, ta *ast.TypeAssertExpr) bool {
 
 // checkBuilderOffsets: for every int variable V used as a slice bound on B.String() (B a strings.Builder
 // variable) in a function, every B.Reset() is immediately followed or preceded by V = 0 in the same block.
+// builderLenSlice: node is X[lo:hi] where X is a local defined once as B.String() and every bound is a local that is
+// only ever assigned the constant 0 or B.Len().
+func builderLenSlice(fi *core.FuncInfo, node ast.Node) bool {
+	se, ok := node.(*ast.SliceExpr)
+	if !ok || fi == nil {
+		return false
+	}
+	info := fi.Pkg.TypesInfo
+	xo := core.ObjOf(info, se.X)
+	if xo == nil {
+		return false
+	}
+	// the builder X was taken from
+	var b types.Object
+	ndef := 0
+	ast.Inspect(fi.Decl.Body, func(n ast.Node) bool {
+		as, ok := n.(*ast.AssignStmt)
+		if !ok {
+			return true
+		}
+		for i, l := range as.Lhs {
+			if core.ObjOf(info, l) != xo || i >= len(as.Rhs) {
+				continue
+			}
+			ndef++
+			if call, ok := ast.Unparen(as.Rhs[i]).(*ast.CallExpr); ok && core.IsCallTo(info, call, "strings.(*Builder).String") {
+				b = rootIdent(info, call.Fun)
+			} else if ndef > 1 {
+				// sv = sv[:v] + f(sv[v:]) keeps the prefix: allowed as a second definition only when it re-slices itself
+				if !strings.HasPrefix(exprStr(as.Rhs[i]), exprStr(l)+"[") {
+					b = nil
+				}
+			}
+		}
+		return true
+	})
+	if b == nil {
+		return false
+	}
+	for _, bd := range []ast.Expr{se.Low, se.High} {
+		if bd == nil {
+			continue
+		}
+		v := core.ObjOf(info, bd)
+		if v == nil {
+			return false
+		}
+		okAll, nasg := true, 0
+		ast.Inspect(fi.Decl.Body, func(n ast.Node) bool {
+			as, ok := n.(*ast.AssignStmt)
+			if !ok {
+				return true
+			}
+			for i, l := range as.Lhs {
+				if core.ObjOf(info, l) != v {
+					continue
+				}
+				nasg++
+				if len(as.Rhs) != len(as.Lhs) {
+					okAll = false
+					continue
+				}
+				r := ast.Unparen(as.Rhs[i])
+				if cv, ok := intConst(info, r); ok && cv == 0 {
+					continue
+				}
+				if call, ok := r.(*ast.CallExpr); ok && core.IsCallTo(info, call, "strings.(*Builder).Len") && rootIdent(info, call.Fun) == b {
+					continue
+				}
+				okAll = false
+			}
+			return true
+		})
+		if !okAll || nasg == 0 {
+			return false
+		}
+	}
+	return true
+}
+
 func checkBuilderOffsets(c *core.Check, rule string, scope []*core.FuncInfo) {
 	n := 0
 	for _, fi := range scope {
@@ -320,6 +402,21 @@ func checkBuilderOffsets(c *core.Check, rule string, scope []*core.FuncInfo) {
 				return true
 			}
 			call, ok := ast.Unparen(se.X).(*ast.CallExpr)
+			if !ok {
+				// a local that holds B.String()
+				if xo := core.ObjOf(info, se.X); xo != nil {
+					ast.Inspect(fi.Decl.Body, func(m ast.Node) bool {
+						as, isAs := m.(*ast.AssignStmt)
+						if !isAs || len(as.Lhs) != 1 || len(as.Rhs) != 1 || core.ObjOf(info, as.Lhs[0]) != xo {
+							return true
+						}
+						if cl, isCall := ast.Unparen(as.Rhs[0]).(*ast.CallExpr); isCall && core.IsCallTo(info, cl, "strings.(*Builder).String") {
+							call, ok = cl, true
+						}
+						return true
+					})
+				}
+			}
 			if !ok || !core.IsCallTo(info, call, "strings.(*Builder).String") {
 				return true
 			}
@@ -351,13 +448,19 @@ func checkBuilderOffsets(c *core.Check, rule string, scope []*core.FuncInfo) {
 					}
 					n++
 					paired := false
-					for _, j := range []int{i - 2, i - 1, i + 1, i + 2} {
-						if j < 0 || j >= len(blk.List) {
+					for j := i - 2; j < len(blk.List); j++ {
+						if j < 0 || j == i {
 							continue
 						}
-						if as, ok := blk.List[j].(*ast.AssignStmt); ok && len(as.Lhs) == 1 && core.ObjOf(info, as.Lhs[0]) == v {
-							if cv, ok := intConst(info, as.Rhs[0]); ok && cv == 0 {
-								paired = true
+						as, ok := blk.List[j].(*ast.AssignStmt)
+						if !ok || len(as.Lhs) != len(as.Rhs) {
+							continue
+						}
+						for k, l := range as.Lhs {
+							if core.ObjOf(info, l) == v {
+								if cv, ok := intConst(info, as.Rhs[k]); ok && cv == 0 {
+									paired = true
+								}
 							}
 						}
 					}
